@@ -294,11 +294,21 @@ pub fn draw_script(rng: &mut Rng, cfg: &RunCfg, profile: &str) -> Vec<J> {
         }
         // a promoted, again unique Bytes with a front offset, then converted
         1 => {
-            let n = *rng.pick(&[16usize, 64, 300, 4096]);
+            let n = *rng.pick(&[3usize, 7, 16, 33, 64, 65, 300, 301, 4096]);
             v.push(J::obj().set("op", if rng.chance(1, 2) { "b_from_box" } else { "b_from_vec" }).set("seed", rng.next_u64()).set("n", n).set("extra", *rng.pick(&[0usize, 0, 9])));
-            v.push(J::obj().set("op", "clone").set("h", 0usize));
-            v.push(J::obj().set("op", "advance").set("h", 0usize).set("n", rng.range(1, n - 1)));
-            v.push(J::obj().set("op", "drop").set("h", 4usize));
+            // the front offset: anywhere, or exactly around the middle / the ends (where "does the
+            // rest overlap the consumed part" style conditions flip)
+            let any = rng.range(1, n - 1);
+            let k = *rng.pick(&[any, n / 2, (n - 1) / 2, (n + 1) / 2, 1, n - 1, n]);
+            if rng.chance(1, 2) {
+                // promoted (clone) and unique again
+                v.push(J::obj().set("op", "clone").set("h", 0usize));
+                v.push(J::obj().set("op", "advance").set("h", 0usize).set("n", k));
+                v.push(J::obj().set("op", "drop").set("h", 4usize));
+            } else {
+                // never promoted
+                v.push(J::obj().set("op", "advance").set("h", 0usize).set("n", k));
+            }
             v.push(J::obj().set("op", *rng.pick(&["try_into_mut", "b_into_mut", "b_into_vec"])).set("h", 0usize));
         }
         // a frozen piece of a split BytesMut emptied in place while a sibling lives, then converted
